@@ -101,20 +101,29 @@ def check_caller_inputs(res, runner_name, variant):
 def check_bound_identity(res, runner_name, nested):
     set_case("C18", {"bound_identity": nested}, runner_name)
     rep = {"harness": "C18", "spec": {"bound_identity": nested}, "runner": runner_name, "part": "bound"}
-    seen = []
-    f = make_function("f", ["x", "res"], {}, ["_SEEN.append(res)", "return x"], {"_SEEN": seen})
-    shared = {"client": object()}
-    g = Graph([FunctionNode(f, name="f", output_name="r")], name="inner").bind(res=shared)
-    if nested:
-        g = Graph([g.as_node()], name="outer")
-    runner = SyncRunner() if runner_name == "sync" else AsyncRunner()
-    for _ in range(2):
-        r = runner.run(g, {"x": 1})
-        if runner_name == "async":
-            asyncio.run(r)
-    res.case(repr(("bound", nested, runner_name)), nontrivial=True)
-    if len(seen) != 2 or not all(s is shared for s in seen):
-        res.fail(kind="oracle", function="_resolve_input", what=f"the bound value did not reach the node as the very object that was bound (nested={nested}): {[s is shared for s in seen]}", runner=runner_name, replay=rep)
+    # ... also when the graph is DERIVED further after the binding (every derivation copies the graph object, never the bound values)
+    for derive in (None, "select", "with_entrypoint", "add_nodes"):
+        seen = []
+        f = make_function("f", ["x", "res"], {}, ["_SEEN.append(res)", "return x"], {"_SEEN": seen})
+        shared = {"client": object()}
+        g = Graph([FunctionNode(f, name="f", output_name="r")], name="inner").bind(res=shared)
+        if derive == "select":
+            g = g.select("r")
+        elif derive == "with_entrypoint":
+            g = g.with_entrypoint("f")
+        elif derive == "add_nodes":
+            h = make_function("h", ["r"], {}, ["return r"], {})
+            g = g.add_nodes(FunctionNode(h, name="h", output_name="r2")).select("r2")
+        if nested:
+            g = Graph([g.as_node()], name="outer")
+        runner = SyncRunner() if runner_name == "sync" else AsyncRunner()
+        for _ in range(2):
+            r = runner.run(g, {"x": 1})
+            if runner_name == "async":
+                asyncio.run(r)
+        res.case(repr(("bound", nested, runner_name, derive)), nontrivial=True)
+        if len(seen) != 2 or not all(s is shared for s in seen):
+            res.fail(kind="oracle", function="_resolve_input / Graph derivations", what=f"the bound value did not reach the node as the very object that was bound (nested={nested}, derived after bind: {derive}): {[s is shared for s in seen]}", runner=runner_name, replay=rep)
 
 
 def run(tier, seed, functions):
